@@ -27,7 +27,7 @@ class C12(Check):
     rule = (
         "cases: stacks of 0..3 middlewares of kinds pass-through / short-circuit (answering calls only; answering every element incl. notifications; returning 'no response' for every element incl. calls) / request-rewriting (other method and params, same id) / "
         "response-rewriting x error-handler tables (none, generic only, per-code only, both, up to 3 handlers per key; kinds identity / "
-        "annotate / replace-by-another-code / the same callable registered again under the same or another key; keys incl. the replacement codes themselves) x request documents over the 15-method registry "
+        "annotate / replace-by-another-code / the same callable registered again under the same or another key; keys incl. the replacement codes themselves) x middlewares passed as list / tuple / one-shot generator, handler lists as list / tuple x request documents over the 15-method registry "
         "(successes, every failure class incl. an internal error raised outside the method body by a class based view's constructor, notifications, failing notifications, batches, rejected documents, non-JSON) x scripted method "
         "failures x sync / async dispatcher. Oracle: the reference server extended with the stack semantics predicts the response "
         "document, the executions and the exact event log (middleware enter events with method / id / params / context identity, handler "
@@ -39,7 +39,7 @@ class C12(Check):
         "async: no handler suspends in this check, so batch elements run to completion in request order (interleavings are C10's subject)",
     ]
     trusted_base = ['pbt/stack.py reference model', 'pbt/refserver.py']
-    required_classes = ['mw/0', 'mw/1', 'mw/2', 'mw/3', 'mw/short-circuited', 'mw/answered-notification', 'mw/swallowed-call', 'handlers/same-callable-twice', 'mw/kind/rewrite-request', 'mw/kind/rewrite-response',
+    required_classes = ['mw/0', 'mw/1', 'mw/2', 'mw/3', 'mw/short-circuited', 'mw/answered-notification', 'mw/passed-as-generator', 'mw/passed-as-tuple', 'mw/swallowed-call', 'handlers/same-callable-twice', 'mw/kind/rewrite-request', 'mw/kind/rewrite-response',
                         'handlers/none', 'handlers/generic', 'handlers/per-code', 'handlers/ran', 'handlers/replace-ran',
                         'doc/batch-accepted', 'doc/not-json', 'doc/batch-rejected/invalid-element', 'notification/raises-exception', 'call/internal-error',
                         'dispatcher/sync', 'dispatcher/async', 'async/sequential-batch']
@@ -66,9 +66,10 @@ class C12(Check):
             gen = docs.document(reg, kinds=['single'] * 5 + ['batch'] * 4 + ['raw', 'mangled', 'value'],
                                 flavours=['valid'] * 10 + ['unknown-method'] * 2 + ['deviant', 'non-object'])
             return st.builds(
-                lambda text, beh, mws, table, conc: {'dispatcher': kind, 'behaviours': beh, 'middlewares': mws, 'handlers': table, 'text': text,
-                                                      'concurrent_batch': conc},
+                lambda text, beh, mws, table, conc, mc, hc: {'dispatcher': kind, 'behaviours': beh, 'middlewares': mws, 'handlers': table, 'text': text,
+                                                              'concurrent_batch': conc, 'mw_container': mc, 'handler_container': hc},
                 gen, stdreg.behaviours(), st.lists(s_mw, max_size=3), s_table, st.sampled_from([True, True, False]),
+                st.sampled_from(['list', 'list', 'tuple', 'generator']), st.sampled_from(['list', 'list', 'tuple']),
             )
         return st.one_of(for_kind('sync'), for_kind('async'))
 
@@ -80,6 +81,8 @@ class C12(Check):
                 {'dispatcher': kind, 'behaviours': {}, 'middlewares': [{'kind': 'pass'}, {'kind': 'rewrite-response'}, {'kind': 'pass'}],
                  'handlers': {'generic': [{'kind': 'annotate'}, {'kind': 'identity'}], 'codes': [[-32601, [{'kind': 'replace'}]], [stack.REPLACE_BASE + 2, [{'kind': 'annotate'}]]]},
                  'text': t([{'jsonrpc': '2.0', 'id': 1, 'method': 'nope'}, {'jsonrpc': '2.0', 'method': 'boom'}, {'jsonrpc': '2.0', 'id': 2, 'method': 'echo', 'params': [1]}])},
+                {'dispatcher': kind, 'behaviours': {}, 'middlewares': [{'kind': 'rewrite-response'}, {'kind': 'pass'}], 'handlers': None, 'mw_container': 'generator',
+                 'text': t([{'jsonrpc': '2.0', 'id': 1, 'method': 'echo', 'params': [1]}, {'jsonrpc': '2.0', 'method': 'echo', 'params': [1]}])},
                 {'dispatcher': kind, 'behaviours': {}, 'middlewares': [{'kind': 'short'}, {'kind': 'pass'}], 'handlers': None,
                  'text': t([{'jsonrpc': '2.0', 'id': 1, 'method': 'nope'}, {'jsonrpc': '2.0', 'method': 'echo', 'params': [1]}])},
                 {'dispatcher': kind, 'behaviours': {}, 'middlewares': [{'kind': 'pass'}], 'handlers': {'generic': [{'kind': 'replace'}], 'codes': []},
@@ -99,7 +102,12 @@ class C12(Check):
         sentinel = object()
         ev.sentinel = sentinel
         hm.RT.reset(sentinel, behaviours, error_builder=sh.build_error)
-        d = hm.build_dispatcher(kind, registry, middlewares=mws, error_handlers=table, concurrent_batch=spec.get('concurrent_batch', True))
+        # the constructor documents `middlewares: Iterable`: a list, a tuple or a one-shot iterator must all work
+        container = spec.get('mw_container', 'list')
+        mws_arg: Any = mws if container == 'list' else tuple(mws) if container == 'tuple' else (m for m in mws)
+        if spec.get('handler_container') == 'tuple':
+            table = {k: tuple(v) for k, v in table.items()}
+        d = hm.build_dispatcher(kind, registry, middlewares=mws_arg, error_handlers=table, concurrent_batch=spec.get('concurrent_batch', True))
         obs = sh.Observation()
         obs.request_text = docs.render(spec['text'])
         # observe() resets RT with its own sentinel, so drive the dispatcher here
@@ -133,6 +141,8 @@ class C12(Check):
 
         n_mw = len(spec['middlewares'])
         classes.append(f"mw/{n_mw}")
+        if n_mw and container != 'list':
+            classes.append(f"mw/passed-as-{container}")
         classes.append(f"dispatcher/{kind}")
         if kind == 'async' and not spec.get('concurrent_batch', True):
             classes.append('async/sequential-batch')
